@@ -123,10 +123,12 @@ J gen_listed_mut(Rng &g, const std::string &focus)
 	return m;
 }
 
-J gen_transport_fault(Rng &g)
+J gen_transport_fault(Rng &g, bool call_indexed = true)
 {
 	J f = J::obj();
 	unsigned k = (unsigned)g.below(100);
+	if (!call_indexed)
+		k = 99; // only faults positioned by byte offset (independent of how reads are chunked)
 	if (k < 35) {
 		f["on"] = "recv";
 		f["k"] = (long long)g.range(1, 12);
@@ -167,6 +169,9 @@ J gen_world(uint64_t seed, const J &opts)
 	cfg["iv_mode"] = focus == "C17" ? (long long)g.below(4) : (g.chance(700) ? 2 : (long long)g.below(4));
 	plan["cfg"] = cfg;
 	int ncaches = focus == "C15" ? (int)g.range(2, 5) : (g.chance(450) ? 2 : 1);
+	bool call_faults = opts.geti("no_call_faults", 0) == 0;
+	if (opts.geti("single", 0))
+		ncaches = 1;
 	// ---- groups
 	J groups = J::arr();
 	if (focus == "C15") {
@@ -261,9 +266,9 @@ J gen_world(uint64_t seed, const J &opts)
 					ex["muts"] = muts;
 				} else if (k < 70) {
 					J fs = J::arr();
-					fs.push(gen_transport_fault(g));
+					fs.push(gen_transport_fault(g, call_faults));
 					if (g.chance(150))
-						fs.push(gen_transport_fault(g));
+						fs.push(gen_transport_fault(g, call_faults));
 					ex["faults"] = fs;
 				} else if (k < 78) {
 					ex["resp"] = "reset";
@@ -320,6 +325,132 @@ J gen_world(uint64_t seed, const J &opts)
 			}
 			script.push(ex);
 		}
+		if (!bystander && focus == "C07" && g.chance(850)) {
+			// the cache disappears for a time around the expire interval, possibly in the middle of a reload
+			long long e = expire;
+			if (script.size() > 0) {
+				// the expire interval in force is whatever the last End of Data made it; use both candidates
+				long long sent = c["iv"][(size_t)2].num();
+				if (sent >= 600 && sent <= 172800 && g.chance(500))
+					e = sent;
+			}
+			static const std::vector<long long> D = {-400, -3, -2, -1, 0, 1, 2, 3, 4, 60, 700};
+			long long T = g.chance(200) ? e / 2 : g.chance(250) ? e * (long long)g.range(2, 10) : e + g.pick(D);
+			{
+				// keep the number of reconnect attempts during the outage bounded
+				long long rmin = retry;
+				long long sr = c["iv"][(size_t)1].num();
+				if (sr >= 1 && sr < rmin)
+					rmin = sr;
+				if (T > rmin * 4000)
+					T = rmin * 4000;
+			}
+			if (T < 1)
+				T = 1;
+			J ex = J::obj();
+			if (g.chance(450)) { // interrupted reload first
+				J pre = J::arr();
+				J r = J::arr();
+				r.push("restart");
+				r.push((long long)g.below(65536));
+				r.push((long long)g.below(100));
+				pre.push(r);
+				ex["pre"] = pre;
+				J ex2 = J::obj();
+				J fs = J::arr();
+				J f = J::obj();
+				f["kind"] = "cut";
+				f["b"] = (long long)g.below(100000);
+				f["close"] = 1;
+				fs.push(f);
+				ex2["faults"] = fs;
+				ex2["down_s"] = T;
+				script.push(ex);
+				script.push(ex2);
+			} else {
+				if (g.chance(500))
+					ex["resp"] = "hangup";
+				ex["down_s"] = T;
+				script.push(ex);
+			}
+		}
+		if (!bystander && focus == "C13") {
+			// version games at the start of the conversation and later
+			for (size_t i = 0; i < script.size(); i++) {
+				J &ex = script[i];
+				unsigned k = (unsigned)g.below(100);
+				if (k < 15)
+					ex["rv"] = 0;
+				else if (k < 27) {
+					ex["resp"] = "err";
+					ex["code"] = 4;
+					ex["ver"] = (long long)g.pick(std::vector<long long>{0, 0, 1, 2, 255});
+					ex["enc"] = 1;
+					ex["text"] = "";
+					ex["close"] = g.chance(700) ? 1 : 0;
+				} else if (k < 37)
+					ex["resp"] = "hangup";
+				else if (k < 50) {
+					J muts = J::arr();
+					J m = mut(g.chance(500) ? "ver" : "verall", g);
+					m["v"] = (long long)g.pick(std::vector<long long>{0, 0, 1, 2, 255});
+					muts.push(m);
+					ex["muts"] = muts;
+				} else if (k < 56) {
+					J muts = J::arr();
+					muts.push(mut("eodfmt", g));
+					ex["muts"] = muts;
+				}
+			}
+		}
+		if (!bystander && focus == "C04") {
+			for (size_t i = 0; i < script.size(); i++) {
+				J &ex = script[i];
+				unsigned k = (unsigned)g.below(100);
+				J muts = ex.has("muts") ? ex["muts"] : J::arr();
+				if (k < 30) {
+					int nb = (int)g.range(1, 4);
+					for (int q = 0; q < nb; q++) {
+						J m = mut("byte", g);
+						m["off"] = (long long)g.below(64);
+						m["v"] = (long long)g.pick(std::vector<long long>{0, 1, 2, 32, 33, 128, 129, 255, (long long)g.below(256)});
+						muts.push(m);
+					}
+					ex["muts"] = muts;
+				} else if (k < 42) {
+					J m = mut("errpdu", g);
+					m["code"] = (long long)g.below(10);
+					m["text"] = g.chance(500) ? "boom" : "";
+					m["enc"] = g.chance(500) ? 1 : 0;
+					if (g.chance(600))
+						m["enc_len"] = (long long)g.pick(std::vector<long long>{0, 1, 7, 8, 9, 12, 3000, 3232, 3240, 65536, 4294967295ll});
+					if (g.chance(400))
+						m["len"] = (long long)g.pick(std::vector<long long>{12, 15, 16, 17, 20, 24, 3248, 3249});
+					muts.push(m);
+					ex["muts"] = muts;
+				} else if (k < 50) {
+					ex["resp"] = "raw";
+					std::string hx;
+					int nbytes = (int)g.range(1, 200);
+					for (int q = 0; q < nbytes; q++) {
+						char b[4];
+						snprintf(b, sizeof(b), "%02x", (unsigned)g.below(g.chance(500) ? 12 : 256));
+						hx += b;
+					}
+					ex["hex"] = hx;
+					if (g.chance(500))
+						ex["close"] = 1;
+				} else if (k < 62) {
+					J fs = ex.has("faults") ? ex["faults"] : J::arr();
+					J f = J::obj();
+					f["kind"] = "cut";
+					f["b"] = (long long)g.below(100000);
+					f["close"] = g.chance(500) ? 1 : 0;
+					fs.push(f);
+					ex["faults"] = fs;
+				}
+			}
+		}
 		// a "nodata" phase must end inside the script, else the tail could never converge
 		{
 			J ex = J::obj();
@@ -360,7 +491,26 @@ J gen_world(uint64_t seed, const J &opts)
 	lat["min_ms"] = (long long)g.pick(std::vector<long long>{1, 1, 20, 900});
 	lat["jitter_ms"] = (long long)g.pick(std::vector<long long>{0, 5, 50, 2500});
 	plan["lat"] = lat;
-	plan["oper"] = J::arr();
+	J oper = J::arr();
+	if (focus == "C07" && g.chance(400)) {
+		long long t = (long long)g.below(2000000);
+		int n = (int)g.range(1, 3);
+		for (int i = 0; i < n; i++) {
+			J o = J::obj();
+			o["at_ms"] = t;
+			o["op"] = "stop";
+			oper.push(o);
+			t += (long long)g.below(900000) + 1;
+			J o2 = J::obj();
+			o2["at_ms"] = t;
+			o2["op"] = "start";
+			oper.push(o2);
+			t += (long long)g.below(3000000) + 1;
+		}
+	}
+	plan["oper"] = oper;
+	if (focus == "C04")
+		plan["hostile"] = 1;
 	J end = J::obj();
 	end["mode"] = "converge";
 	end["max_s"] = 120ll * 86400ll;
